@@ -85,7 +85,9 @@ Inductive libop :=
 | OTimeoutExit (b : nat) (r : reply)
 | OInterruptor (b : nat)
 | OSetPrio (p : Q)
-| OSelf.
+| OSelf
+| OQuery                        (* log what runnable_tasks()/blocked_tasks()/all_tasks() report *)
+| OCallSoonQuery.               (* loop.call_soon(<the same query as a plain callback>) *)
 
 Inductive coro :=
 | Ret (v : Z)
@@ -114,7 +116,8 @@ Inductive callback :=
 | HReinsert (t : nat) (p : nat)
 | HLog (n : Z)
 | HSetResult (f : nat) (v : Z)
-| HTrigger (b : nat).
+| HTrigger (b : nat)
+| HQuery.
 Record handle := mkH { hcb : callback; hcancelled : bool }.
 
 (* library frames: where a library coroutine is suspended *)
@@ -695,6 +698,44 @@ Definition cond_p_after (s : st) (c : nat) (r : reply) : st * reply :=
   | RExc e => (notify_p s c 1, RExc e)
   end.
 
+(* scheduling.runnable_tasks / blocked_tasks / asyncio.all_tasks as coded *)
+Fixpoint dedup (l : list nat) : list nat :=
+  match l with
+  | [] => []
+  | x :: t => if existsb (Nat.eqb x) t then dedup t else x :: dedup t
+  end.
+Definition ready_items (s : st) : list nat :=
+  match ready s with
+  | RList l => l
+  | RPos p => map (fun e => Z.to_nat (eobj e)) (arr (pq_sort HPV (pq_ p)))
+  end.
+Definition runnable_tasks (s : st) : list nat :=
+  dedup (flat_map (fun h => match task_of_cb (hcb (nth h (handles s) (mkH (HLog 0) true))) with
+                            | Some t => [t] | None => [] end) (ready_items s)).
+Definition all_tasks (s : st) : list nat :=
+  filter (fun t => negb (match fstate_ (nth (tfut (nth t (tasks s) dtask)) (futs s) dfut) with
+                         | FPending => false | _ => true end)) (seq 0 (length (tasks s))).
+Definition blocked_tasks (s : st) : list nat :=
+  filter (fun t => negb (existsb (Nat.eqb t) (runnable_tasks s))
+                   && negb (match current s with Some c => Nat.eqb c t | None => false end))
+         (all_tasks s).
+(* iterating the priority loop's ready queue (queue_items) sorts its array in place *)
+Definition queue_iterated (s : st) : st :=
+  match ready s with
+  | RList _ => s
+  | RPos p => s <| ready := RPos (snd (pos_iter HPV p)) |>
+  end.
+(* the asserts inside runnable_tasks()/blocked_tasks() *)
+Definition query_code (s : st) : Z :=
+  let r := runnable_tasks s in
+  let b := blocked_tasks s in
+  let blocked t := match twaiter (nth t (tasks s) dtask) with
+                   | Some f => match fstate_ (nth f (futs s) dfut) with FPending => true | _ => false end
+                   | None => false end in
+  if existsb blocked r then (-1)%Z
+  else if negb (forallb blocked b) then (-2)%Z
+  else (Z.of_nat (length r) * 10000 + Z.of_nat (length b) * 100 + Z.of_nat (length (all_tasks s)))%Z.
+
 (* ----------------------------------------------------- lib_call / resume *)
 Definition is_runtime (r : reply) : bool :=
   match r with RExc (ERuntime _) => true | _ => false end.
@@ -839,7 +880,11 @@ Definition lib_call (t : nat) (op : libop) (s : st) : st * lres :=
                  | RExc (ETimeoutInt b') => if Nat.eqb b b' then RExc ETimeout else r
                  | _ => r end))
   | OInterruptor b => let '(s', r) := interruptor 4 s b 0 in interruptor_wrap s' r
-  | OSetPrio p => (sett s t (gett s t <| tprio := Some p |>), LDone (RVal 0))
+  | OSetPrio p =>
+      if is_prio_task s t then (sett s t (gett s t <| tprio := Some p |>), LDone (RVal 0))
+      else (s, LDone (RExc EValue))
+  | OQuery => (queue_iterated (addlog s (query_code s)), LDone (RVal 0))
+  | OCallSoonQuery => (call_soon_ s HQuery, LDone (RVal 0))
   end.
 
 (* resuming one suspended library frame with the input that reaches it *)
@@ -1050,6 +1095,7 @@ Definition run_callback (c : callback) (s : st) : st :=
   | HLog n => addlog s n
   | HSetResult f v => fst (fut_finish s f (FResult v))      (* _set_result_unless_cancelled *)
   | HTrigger b => fst (new_task s KC None (interruptor_body b))
+  | HQuery => queue_iterated (addlog s (query_code s))
   end.
 
 (* run exactly one ready handle (cancelled handles are popped and skipped) *)
